@@ -48,7 +48,18 @@ RULE = (
     'copy / deepcopy / pickle / == of package objects between two identical computations (object unchanged and same '
     'result); every case is run a SECOND time with the very same objects in one of its layouts (also after a call '
     'that raised); one shard holds the sizes beyond the thresholds in the code (20_000_000 points x detectors, SQW '
-    'pixel chunks of 8192) and generic large sizes (2**20+7, 3x400001); a fingerprint probe changes one field of '
+    'pixel chunks of 8192) and generic large sizes (2**20+7, 3x400001); PASS-THROUGH STAND-INS (caller-defined Model / '
+    'SampleShape / Material / DiskChopper classes whose methods hand back, unchanged, an argument or stored state: '
+    'f(x;c)=c, f(x)=x, a table on the grid of x, a view of a longer table, stored quadrature / path lengths / '
+    'coefficients / opening times) in every operand position of every combinator that consumes the return value, with '
+    'operand shapes that coincide (0-d x, lengths 1, 2, 3, 4, 11, per-point parameters) and that broadcast; a CONTENTS '
+    'PROBE on every kernel, model and method that computes new values (arguments scaled in place after the call: the '
+    'earlier result keeps its bits; the call repeated with the same objects equals the call with fresh copies; contents '
+    'put back: first result again; result scaled in place: arguments keep their bits and the call still gives the first '
+    'result), also with operand values that make an internal step a no-op (unit vectors, zero offsets); prefixes and '
+    'isotope names that are not in NFC / NFKC form; the Monte-Carlo quadrature with numpy\'s global random state pinned by '
+    'the caller before each call; FRESH INTERPRETER: ten calls, each in a subprocess that imported only the module of the '
+    'entry point, equal bit for bit to the same call in a worker with a history; a fingerprint probe changes one field of '
     'every kind of object handed over and demands a different fingerprint (else inconclusive), '
     '(3) thorough only: the repository test-suite with the monitor armed. '
     'oracle B (history): for each family of factories/lookups a pristine reference is taken, then ALL sequences '
@@ -2479,6 +2490,651 @@ def _value_cases():  # noqa: C901
                      lambda: P.save_xye(Sink(), pd), lambda: P.cif.CIF('a').with_reduced_powder_data(pd).save(Sink()),
                      lambda: P.DiskChopper.from_nexus(dg), lambda: P.DiskChopper.from_nexus(od))
 
+    # ===================================================== (i2) pass-through stand-ins
+    # A method the package calls on a caller-defined class may hand back, UNCHANGED, one of the objects it was given
+    # (f(x; c) = c returns its parameter, f(x) = x returns x) or something the object keeps (a background tabulated on
+    # the grid of the data, a view of such a table, a pre-computed quadrature, constant opening times).  Whatever the
+    # package then does with that return value it does to an object the caller owns.  Each such stand-in is put into
+    # every operand position of every combinator that consumes the return value, and evaluated with operand shapes
+    # that coincide with the shape of the other operand (0-d x, a table on the grid of x, a per-point parameter) as
+    # well as shapes that do not (broadcasting), at lengths next to the sizes the code uses itself (1, the 2 of a
+    # 'range', the 3 / 4 parameters of the peak models).  Judged: every caller-owned object (the arguments, the
+    # parameter dict, the stored state) is bit-identical afterwards, the same evaluation gives the same result again,
+    # also after the caller wrote into the earlier result (a result made by the package is the caller's to modify).
+    def passthrough_models(P):
+        M = P.peaks.model
+
+        class Pedestal(M.Model):
+            """f(x; c) = c: hands its parameter back."""
+
+            def __init__(self, *, prefix=''):
+                super().__init__(param_names=('c',), prefix=prefix)
+
+            def _call(self, x, params):
+                return params['c']
+
+            def _guess(self, x, y):
+                return {'c': sc.min(y)}
+
+        class Identity(M.Model):
+            """f(x) = x: hands the independent variable back."""
+
+            def __init__(self, *, prefix=''):
+                super().__init__(param_names=(), prefix=prefix)
+
+            def _call(self, x, params):
+                return x
+
+            def _guess(self, x, y):
+                return {}
+
+        class Tabulated(M.Model):
+            """A background measured on the grid of the data, no free parameters: hands its table back."""
+
+            def __init__(self, table, *, prefix=''):
+                super().__init__(param_names=(), prefix=prefix)
+                self.table = table
+
+            def _call(self, x, params):
+                return self.table
+
+            def _guess(self, x, y):
+                return {}
+
+        class TabulatedView(Tabulated):
+            """The same with a table longer than the data: hands back a view of the part that covers x."""
+
+            def _call(self, x, params):
+                return self.table[self.table.dims[0], 0:x.sizes[x.dims[0]]] if x.ndim else self.table[self.table.dims[0], 1]
+
+        return Pedestal, Identity, Tabulated, TabulatedView
+
+    def builtin_with_params(P, A, kind, prefix, dt):
+        """A built-in model and parameters for it such that the result has the unit of x (angstrom)."""
+        M = P.peaks.model
+        if kind == 'polynomial':
+            return M.PolynomialModel(degree=1, prefix=prefix), {prefix + 'a0': A(_arr1(0.5, 'angstrom', dt)), prefix + 'a1': A(_arr1(2.0, 'one', dt))}
+        m = {'gaussian': M.GaussianModel, 'lorentzian': M.LorentzianModel, 'pseudo_voigt': M.PseudoVoigtModel}[kind](prefix=prefix)
+        pr = {prefix + 'amplitude': A(_arr1(10.0, 'angstrom^2', dt)), prefix + 'loc': A(_arr1(1.5, 'angstrom', dt)),
+              prefix + 'scale': A(_arr1(0.2, 'angstrom', dt))}
+        if kind == 'pseudo_voigt':
+            pr[prefix + 'fraction'] = A(_arr1(0.3, 'one', dt))
+        return m, pr
+
+    def _arr1(v, unit, dt):
+        return sc.scalar(v, unit=unit, dtype=dt)
+
+    def twice_and_after_writing_into_the_result(label, evaluate):
+        """evaluate() three times with the very same objects; the caller scales the second result in place."""
+        def run():
+            first = evaluate()
+            f1 = fp(first)
+            second = evaluate()
+            f2 = fp(second)
+            if f1 != f2:
+                raise _Verdict('history_dependence', f'{label}: the same evaluation with the same objects gives a different result the second time',
+                               family='stand-ins', factory=label.split('[')[0], needs_mutation=False)
+            try:
+                second *= 2.0
+            except Exception:  # noqa: BLE001  (a read-only result: nothing a caller could do to it)
+                return
+            if fp(first) != f1:
+                raise _Verdict('history_dependence', f'{label}: writing into the result of the second evaluation changed the result of the first',
+                               family='stand-ins', factory=label.split('[')[0], needs_mutation=True)
+            if fp(evaluate()) != f1:
+                raise _Verdict('history_dependence', f'{label}: after the caller wrote into an earlier result the same evaluation gives a different result',
+                               family='stand-ins', factory=label.split('[')[0], needs_mutation=True)
+        return run
+
+    # x: 0-d, and 1-d of length 1, 2 ('range'), 3 and 4 (number of peak parameters), 11
+    x_shapes = {'x-0d': None, 'x-len-1': 1, 'x-len-2': 2, 'x-len-3': 3, 'x-len-4': 4, 'x-len-11': 11}
+    positions = ('U+B', 'B+U', '(U+B)+B2', 'B2+(U+B)', '(B+U)+B2', 'B2+(B+U)', 'CompositeModel(U,B,prefix)', 'with_prefix(U+B)')
+
+    def compose(P, pos, U, B, B2):
+        M = P.peaks.model
+        return {'U+B': lambda: U + B, 'B+U': lambda: B + U, '(U+B)+B2': lambda: (U + B) + B2, 'B2+(U+B)': lambda: B2 + (U + B),
+                '(B+U)+B2': lambda: (B + U) + B2, 'B2+(B+U)': lambda: B2 + (B + U),
+                'CompositeModel(U,B,prefix)': lambda: M.CompositeModel(U, B, prefix=''),
+                'with_prefix(U+B)': lambda: (U + B).with_prefix('')}[pos]()
+
+    for user in ('returns-its-parameter', 'returns-its-per-point-parameter', 'returns-x', 'returns-stored-table', 'returns-view-of-stored-table'):
+        for pos in positions:
+            @case('CompositeModel.__call__', f'passthrough:user-model-{user}:{pos}')
+            def _(P, A, O, rng, user=user, pos=pos):
+                Pedestal, Identity, Tabulated, TabulatedView = passthrough_models(P)
+                runs = []
+                kinds = ('gaussian', 'lorentzian', 'pseudo_voigt', 'polynomial')
+                for k, (shape, n) in enumerate(x_shapes.items()):
+                    # (dtype and partner model alternate over shapes x operand positions: every pair occurs in some case)
+                    for dt in (('float64', 'float32')[(k + positions.index(pos)) % 2],):
+                        kind = kinds[(k + positions.index(pos) // 2) % len(kinds)]
+                        xv = np.float64(1.5) if n is None else np.linspace(1.0, 2.0, n)
+                        x = A(sc.scalar(xv, unit='angstrom', dtype=dt) if n is None else _arr(xv, 'angstrom', dtype=dt))
+                        like_x = (lambda v: sc.scalar(v, unit='angstrom', dtype=dt)) if n is None else (
+                            lambda v: _arr(np.linspace(v, v - 1.0, n), 'angstrom', dtype=dt))
+                        B, pr = builtin_with_params(P, A, kind, 'peak_', dt)
+                        B2, pr2 = builtin_with_params(P, A, 'polynomial', 'lin_', dt)
+                        if user == 'returns-its-parameter':
+                            Um, pu = Pedestal(prefix='bkg_'), {'bkg_c': A(sc.scalar(3.0, unit='angstrom', dtype=dt))}
+                        elif user == 'returns-its-per-point-parameter':
+                            Um, pu = Pedestal(prefix='bkg_'), {'bkg_c': A(like_x(5.0))}
+                        elif user == 'returns-x':
+                            Um, pu = Identity(prefix='bkg_'), {}
+                        elif user == 'returns-stored-table':
+                            Um, pu = Tabulated(A(like_x(5.0)), prefix='bkg_'), {}
+                        else:
+                            tab = A(_arr(np.linspace(5.0, 4.0, 16), 'angstrom', dtype=dt))
+                            Um, pu = TabulatedView(tab, prefix='bkg_'), {}
+                        O(Um), O(B), O(B2)
+                        model = O(compose(P, pos, Um, B, B2))
+                        params = O({**pu, **pr, **(pr2 if 'B2' in pos else {})})
+                        runs.append(twice_and_after_writing_into_the_result(
+                            f'CompositeModel.__call__[{user},{pos},{shape},{dt},{kind}]',
+                            lambda model=model, x=x, params=params: model(x, **params)))
+                return _each(*runs)
+
+    @case('CompositeModel.__call__', 'passthrough:both-operands-user-models-and-the-same-object-in-both')
+    def _(P, A, O, rng):
+        Pedestal, Identity, Tabulated, TabulatedView = passthrough_models(P)
+        runs = []
+        for shape, n in x_shapes.items():
+            x = A(sc.scalar(1.5, unit='angstrom') if n is None else _arr(np.linspace(1.0, 2.0, n), 'angstrom'))
+            like_x = (lambda v: sc.scalar(v, unit='angstrom')) if n is None else (lambda v: _arr(np.linspace(v, v - 1.0, n), 'angstrom'))
+            c, table = A(like_x(3.0)), A(like_x(5.0))
+            tab16 = A(_arr(np.linspace(5.0, 4.0, 16), 'angstrom'))
+            pa, pb = Pedestal(prefix='a_'), Pedestal(prefix='b_')
+            combos = {
+                'pedestal+table': (pa + Tabulated(table), {'a_c': c}),
+                'table+pedestal': (Tabulated(table) + pa, {'a_c': c}),
+                'pedestal+pedestal-one-variable-for-both': (pa + pb, {'a_c': c, 'b_c': c}),
+                'table+table-one-table-in-both': (Tabulated(table) + Tabulated(table), {}),
+                'view+view-of-one-table': (TabulatedView(tab16) + TabulatedView(tab16), {}),
+                'x+x': (Identity() + Identity(), {}),
+                'x+pedestal-whose-parameter-is-x': (Identity() + pa, {'a_c': x}),
+                'table-that-is-x+x': (Tabulated(x) + Identity(), {}),
+            }
+            for name, (model, params) in combos.items():
+                O(model), O(params)
+                runs.append(twice_and_after_writing_into_the_result(
+                    f'CompositeModel.__call__[{name},{shape}]', lambda model=model, x=x, params=params: model(x, **params)))
+        return _each(*runs)
+
+    @case('fit_peaks', 'passthrough:user-models-returning-parameters-and-stored-guesses-bounds-table')
+    def _(P, A, O, rng):
+        M = P.peaks.model
+        Pedestal, Identity, Tabulated, TabulatedView = passthrough_models(P)
+
+        class StartingValues(M.GaussianModel):
+            """A peak model with the caller's starting values and bounds; its width IS its scale parameter."""
+
+            def __init__(self, start, bounds, *, prefix=''):
+                super().__init__(prefix=prefix)
+                self.start, self.bounds = start, bounds
+
+            def _guess(self, x, y):
+                return self.start
+
+            def _param_bounds(self):
+                return self.bounds
+
+            def fwhm(self, params):
+                return params[self.prefix + 'scale']
+
+        class OnTable(M.Model):
+            """f(x; s) = table on the grid of x, whatever s: hands back a view of the stored table."""
+
+            def __init__(self, table, *, prefix=''):
+                super().__init__(param_names=('s',), prefix=prefix)
+                self.table = table
+
+            def _call(self, x, params):
+                i = int(np.searchsorted(self.table.coords['x'].values, x.values[0])) if x.ndim else 0
+                return self.table.data['x', i:i + x.sizes['x']] if x.ndim else self.table.data['x', 0]
+
+            def _guess(self, x, y):
+                return {'s': sc.scalar(1.0)}
+
+        da, e, w = A(spectrum(rng)), A(_arr([4.0, 6.5], 'angstrom')), A(_s(2.0, 'angstrom'))
+        start = O({'amplitude': A(sc.scalar(2.0, unit='angstrom')), 'loc': A(_s(4.0, 'angstrom')), 'scale': A(_s(0.3, 'angstrom'))})
+        bounds = O({'scale': (0.0, 5.0), 'loc': (0.0, 10.0)})
+        peak = O(StartingValues(start, bounds, prefix='peak_'))
+        flat = O(Pedestal(prefix='bkg_'))
+        table = A(sc.DataArray(_arr(np.ones(120), 'one'), coords={'x': da.coords['x'].copy()}))
+        ontab = O(OnTable(table, prefix='bkg_'))
+        x0, xg = A(_s(4.0, 'angstrom')), A(da.coords['x'].copy())
+        nv = A(sc.DataArray(sc.values(da.data), coords={'x': da.coords['x']}))
+
+        def summary(res):
+            return [(r.popt, r.assessment, r.message, getattr(r, 'red_chisq', None), getattr(r, 'aic', None)) for r in res]
+
+        def f(bkg):
+            res = P.peaks.fit_peaks(da, peak_estimates=e, windows=w, background=bkg, peak=peak)
+            again = P.peaks.fit_peaks(da, peak_estimates=e, windows=w, background=bkg, peak=peak)
+            if fp(summary(res)) != fp(summary(again)):
+                raise _Verdict('history_dependence', 'fit_peaks with pass-through user models: the same fit with the same objects gives a different result the second time',
+                               family='stand-ins', factory='fit_peaks', needs_mutation=False)
+            for r in res:
+                for x in (x0, xg):
+                    for ev in (r.eval_model, r.eval_peak):
+                        if r.popt:
+                            twice_and_after_writing_into_the_result(f'FitResult.{ev.__name__}', lambda ev=ev, x=x: ev(x))()
+            first = fp(P.peaks.remove_peaks(nv, res))
+            if fp(P.peaks.remove_peaks(nv, res)) != first:
+                raise _Verdict('history_dependence', 'remove_peaks with pass-through user models: a different result the second time',
+                               family='stand-ins', factory='remove_peaks', needs_mutation=False)
+        def quiet(bkg):  # (a parameter the model ignores: scipy says so on stderr each time)
+            import warnings
+
+            with warnings.catch_warnings():
+                warnings.simplefilter('ignore')
+                f(bkg)
+        return _each(lambda: quiet(flat), lambda: quiet(ontab), lambda: quiet('linear'))
+
+    @case('compute_transmission_map', 'passthrough:shape-and-material-returning-stored-quadrature-distances-coefficients')
+    def _(P, A, O, rng):
+        from scippneutron.absorption.types import SampleShape
+
+        runs = []
+        # sizes that coincide: points x detectors x wavelengths all of one length (and 1), next to sizes that do not
+        for npt, ndet, nwl in ((9, 9, 9), (1, 1, 1), (4, 1, 4), (3, 3, 2)):
+            pts = A(_vecs(rng.uniform(-0.3, 0.3, size=(npt, 3)), 'cm', dim='quad'))
+            wts = A(_arr(np.full(npt, 1.0 / npt), 'cm^3', dim='quad'))
+            vol = A(_s(1.0, 'cm^3'))
+            det = A(_vecs(rng.normal(size=(ndet, 3)) * 100, 'cm', dim='detector'))
+            wl = A(_arr(np.linspace(0.5, 5.0, nwl), 'angstrom', dim='wavelength'))
+            beam = A(_vec([0.0, 0.0, 1.0], 'one'))
+            dist = A(sc.array(dims=['detector', 'quad'], values=rng.uniform(0.1, 1.0, size=(ndet, npt)), unit='cm'))
+            dist_in = A(_arr(rng.uniform(0.1, 1.0, size=npt), 'cm', dim='quad'))
+            mu_tab = A(_arr(np.linspace(0.1, 0.5, nwl), '1/cm', dim='wavelength'))
+            mu_const = A(_s(0.3, '1/cm'))
+            store = O({'quad': (pts, wts), 'vol': vol, 'dist': dist, 'dist_in': dist_in})
+
+            def stand_ins(store=store, wl=wl, mu_tab=mu_tab, mu_const=mu_const):
+
+                class Lookup(SampleShape):
+                    """A shape described by tables: every method hands back what it keeps."""
+
+                    def beam_intersection(self, start_point, direction):
+                        return store['dist'] if direction.ndim == 2 else store['dist_in']
+
+                    @property
+                    def volume(self):
+                        return store['vol']
+
+                    def quadrature(self, kind):
+                        return store['quad']
+
+                class SamePath(SampleShape):
+                    """Every path through the sample has one length, in and out: the same object for both."""
+
+                    def beam_intersection(self, start_point, direction):
+                        return store['dist']
+
+                    volume = property(lambda self: store['vol'])
+
+                    def quadrature(self, kind):
+                        return store['quad']
+
+                class TableMaterial(P.Material):
+                    def attenuation_coefficient(self, wavelength):
+                        i = int(np.argmin(abs(wl.values - wavelength.value)))
+                        return mu_tab['wavelength', i]
+
+                class GreyMaterial(P.Material):
+                    def attenuation_coefficient(self, wavelength):
+                        return mu_const
+
+                return Lookup, SamePath, TableMaterial, GreyMaterial
+
+            Lookup, SamePath, TableMaterial, GreyMaterial = stand_ins()
+            sp = P.ScatteringParams.for_isotope('V')
+            mats = {'standard': P.Material(scattering_params=sp, effective_sample_number_density=A(_s(0.07, '1/angstrom^3'))),
+                    'table': TableMaterial(scattering_params=sp, effective_sample_number_density=A(_s(0.07, '1/angstrom^3'))),
+                    'grey': GreyMaterial(scattering_params=sp, effective_sample_number_density=A(_s(0.07, '1/angstrom^3')))}
+            shapes = {'lookup': Lookup(), 'same-path': SamePath()}
+            for sname, shape in shapes.items():
+                for mname, mat in mats.items():
+                    O(shape), O(mat)
+
+                    def evaluate(shape=shape, mat=mat, beam=beam, wl=wl, det=det):
+                        return P.compute_transmission_map(shape, mat, beam_direction=beam, wavelength=wl, detector_position=det,
+                                                          quadrature_kind='table')
+
+                    def run(evaluate=evaluate, label=f'compute_transmission_map[{sname},{mname},{npt}x{ndet}x{nwl}]'):
+                        first = evaluate()
+                        f1 = fp(first)
+                        if fp(evaluate()) != f1:
+                            raise _Verdict('history_dependence', f'{label}: a different map the second time', family='stand-ins',
+                                           factory='compute_transmission_map', needs_mutation=False)
+                        # the data of the map is made by the package (the coords are the caller's arrays, documented)
+                        first.data *= 2.0
+                        if fp(evaluate()) != f1:
+                            raise _Verdict('history_dependence', f'{label}: a different map after the caller wrote into the earlier map',
+                                           family='stand-ins', factory='compute_transmission_map', needs_mutation=True)
+                    runs.append(run)
+            cyl = O(cylinder2(P, A))
+            runs.append(lambda cyl=cyl, mat=mats['table'], beam=beam, wl=wl, det=det: P.compute_transmission_map(
+                cyl, mat, beam_direction=beam, wavelength=wl, detector_position=det, quadrature_kind='cheap'))
+        return _each(*runs)
+
+    @case('DiskChopper', 'passthrough:subclass-returning-stored-times-and-angles')
+    def _(P, A, O, rng):
+        t_open, t_close = A(_arr([1e-3, 9e-3], 's', dim='slit')), A(_arr([4e-3, 12e-3], 's', dim='slit'))
+        store = O({'open': t_open, 'close': t_close})
+
+        class Measured(P.DiskChopper):
+            """Opening and closing times taken from a measurement: handed back as they are."""
+
+            def time_offset_open(self, *, pulse_frequency):
+                return store['open']
+
+            def time_offset_close(self, *, pulse_frequency):
+                return store['close']
+
+        class MeasuredEdges(P.DiskChopper):
+            def time_offset_angle_at_beam(self, *, angle, n_repetitions=None):
+                return store['open'] if angle is self.slit_begin or angle is self.slit_end and not self.is_clockwise else store['close']
+
+        def mk(cls):
+            return cls(axle_position=A(_vec([0.0, 0.0, 8.0])), frequency=A(_s(14.0, 'Hz')), beam_position=A(_s(0.0, 'rad')),
+                       phase=A(_s(0.5, 'rad')), slit_begin=A(_arr([0.0, 2.0], 'rad', dim='slit')), slit_end=A(_arr([1.0, 3.0], 'rad', dim='slit')))
+
+        dc, de = O(mk(Measured)), O(mk(MeasuredEdges))
+        pf = A(_s(14.0, 'Hz'))
+        fr = O(frame(P, A))
+
+        def f():
+            for _ in range(2):
+                twice_and_after_writing_into_the_result('DiskChopper.open_duration', lambda: dc.open_duration(pulse_frequency=pf))()
+                ch = P.CC.Chopper.from_disk_chopper(dc, pulse_frequency=pf, npulses=1)
+                ce = P.CC.Chopper.from_disk_chopper(de, pulse_frequency=pf, npulses=1)   # times in the unit asked for: no conversion
+                first = fp(fr.chop(ce))
+                if fp(fr.chop(ce)) != first or fp(fr.chop(P.CC.Chopper.from_disk_chopper(de, pulse_frequency=pf, npulses=1))) != first:
+                    raise _Verdict('history_dependence', 'Frame.chop with a chopper made from stored times: a different frame the second time',
+                                   family='stand-ins', factory='from_disk_chopper', needs_mutation=False)
+                fr.chop(ch)
+        return f
+
+    # ===================================================== (k)/(l) contents changed in place between calls; results vs arguments
+    # A caller may keep its operand objects and change their CONTENTS in place between two calls, and may write into a
+    # result it was given.  For every entry point that computes new values from scipp operands:
+    #   (l1) after a call every argument is scaled in place: the result obtained EARLIER keeps its bits;
+    #   (k)  the call is repeated with the very same objects (new contents): the result equals, bit for bit, the result
+    #        for fresh copies holding the same contents (a result remembered under the identity of an operand would not);
+    #   (l2) the contents are put back in place, the call must give the first result again; that result is then scaled in
+    #        place: every argument keeps its bits and yet another call still gives the first result.
+    # Operand lengths 2, 3, 4 (the 2 of a 'range', the 3 components of a vector / parameters of a peak, one more).
+    def _leaves(o, out):
+        if isinstance(o, sc.Variable):
+            out.append(o)
+        elif isinstance(o, sc.DataArray):
+            out.append(o.data)
+        elif isinstance(o, dict):
+            for v in o.values():
+                _leaves(v, out)
+        elif isinstance(o, list | tuple):
+            for v in o:
+                _leaves(v, out)
+        return out
+
+    def _scale_in_place(o, factor=1.25):
+        n = 0
+        for v in _leaves(o, []):
+            try:
+                v *= factor
+                n += 1
+            except Exception:  # noqa: BLE001  (read-only, integer, string ...: nothing a caller could do this way)
+                pass
+        return n
+
+    def _put_back(v, saved):
+        v.values = saved.values
+        if saved.variances is not None:
+            v.variances = saved.variances
+
+    def contents_probe(name, call, args):
+        def run():
+            def verdict(kind, what, direction):
+                return _Verdict(kind, f'{name}: {what}', function=name, direction=direction)
+
+            saved = {k: v.copy() for k, v in args.items()}
+
+            def unchanged(when):  # (the probe puts contents back itself, so it has to look at the arguments itself, too)
+                for k, v in args.items():
+                    if fp(v) != fp(saved[k]):
+                        raise verdict('owner_buffer_modified', f'{when} modified the argument {k!r}', 'call')
+
+            try:
+                first = call(**args)
+                f1 = fp(first)
+                unchanged('the first call')
+                for i, (k, v) in enumerate(args.items()):
+                    _scale_in_place(v, 1.25 + 0.25 * i)
+                    if fp(first) != f1:
+                        raise verdict('result_aliases_argument', f'writing into the argument {k!r} after the call changed the result obtained earlier', 'argument->result')
+                try:
+                    same_objects = fp(call(**args))
+                except Exception as e:  # noqa: BLE001
+                    same_objects = 'raised ' + type(e).__name__
+                try:
+                    fresh_objects = fp(call(**{k: v.copy() for k, v in args.items()}))
+                except Exception as e:  # noqa: BLE001
+                    fresh_objects = 'raised ' + type(e).__name__
+                for k, v in args.items():
+                    _put_back(v, saved[k])
+                if same_objects != fresh_objects:
+                    raise verdict('history_dependence', 'after the contents of the operands were changed in place, the call with the very same '
+                                  'objects gives a result different from the call with fresh objects holding the same contents', 'contents-changed-in-place')
+                insensitive = same_objects == f1  # (e.g. a ratio of operands: the repeated call teaches nothing here)
+                again = call(**args)
+                unchanged('the call after the contents were put back')
+                if fp(again) != f1:
+                    raise verdict('history_dependence', 'with the original contents put back in place the call gives a result different from the first', 'contents-put-back')
+                if _scale_in_place(again):
+                    for k, v in args.items():
+                        if fp(v) != fp(saved[k]):
+                            raise verdict('result_aliases_argument', f'writing into the result changed the argument {k!r}', 'result->argument')
+                    if fp(call(**args)) != f1:
+                        raise verdict('history_dependence', 'after the caller wrote into an earlier result the same call gives a different result', 'result-written')
+            finally:  # (whatever was found: the harness leaves the caller's objects as it got them)
+                for k, v in args.items():
+                    _put_back(v, saved[k])
+            if insensitive:
+                raise _Insensitive()
+
+        return run
+
+    class _Insensitive(Exception):
+        """The result did not change with the contents: counted ('noncanon case raised: ...: _Insensitive'), not judged."""
+
+    probe_sizes = itertools.cycle((2, 3, 4))
+
+    def probe_case(name, build_args, call, dts=('float64', 'float32')):
+        n = next(probe_sizes)
+        for dt in dts:
+            @case(name, f'in-place:contents-changed-between-calls-and-result-vs-arguments[{dt},len-{n}]')
+            def _(P, A, O, rng, dt=dt, n=n):
+                args = {k: A(v) for k, v in build_args(P, rng, n, dt).items()}
+                return contents_probe(name, lambda **kw: call(P, **kw), args)
+
+    def _u(rng, lo, hi, n, unit, dt):
+        return _arr(rng.uniform(lo, hi, n), unit, dtype=dt)
+
+    probe_case('L1', lambda P, rng, n, dt: {'incident_beam': _vec([0.3, -0.2, 25.0])}, lambda P, **kw: P.KB.L1(**kw), dts=('float64',))
+    probe_case('L2', lambda P, rng, n, dt: {'scattered_beam': _vecs(rng.normal(size=(n, 3)) + [0, 0, 4.0])}, lambda P, **kw: P.KB.L2(**kw), dts=('float64',))
+    probe_case('straight_incident_beam', lambda P, rng, n, dt: {'source_position': _vec([0.0, 0.0, -25.0]), 'sample_position': _vec([0.1, 0.2, 0.3])},
+               lambda P, **kw: P.KB.straight_incident_beam(**kw), dts=('float64',))
+    probe_case('straight_scattered_beam', lambda P, rng, n, dt: {'position': _vecs(rng.normal(size=(n, 3)) + [0, 0, 4.0]), 'sample_position': _vec([0.1, 0.2, 0.3])},
+               lambda P, **kw: P.KB.straight_scattered_beam(**kw), dts=('float64',))
+    probe_case('total_beam_length', lambda P, rng, n, dt: {'L1': sc.scalar(25.0, unit='m', dtype=dt), 'L2': _u(rng, 1, 5, n, 'm', dt)},
+               lambda P, **kw: P.KB.total_beam_length(**kw))
+    probe_case('total_straight_beam_length_no_scatter', lambda P, rng, n, dt: {'source_position': _vec([0.0, 0.0, -25.0]), 'position': _vecs(rng.normal(size=(n, 3)) + [0, 0, 4.0])},
+               lambda P, **kw: P.KB.total_straight_beam_length_no_scatter(**kw), dts=('float64',))
+    probe_case('two_theta', lambda P, rng, n, dt: {'incident_beam': _vec([0.0, 0.0, 25.0]), 'scattered_beam': _vecs(rng.normal(size=(n, 3)) + [0, 0, 4.0])},
+               lambda P, **kw: P.KB.two_theta(**kw), dts=('float64',))
+    probe_case('beam_aligned_unit_vectors', lambda P, rng, n, dt: {'incident_beam': _vec([0.0, 0.0, 25.0]), 'gravity': _vec(g_std, 'm/s^2')},
+               lambda P, **kw: P.KB.beam_aligned_unit_vectors(**kw), dts=('float64',))
+    for gname in ('scattering_angles_with_gravity', 'scattering_angle_in_yz_plane'):
+        probe_case(gname, lambda P, rng, n, dt: {'incident_beam': _vec([0.0, 0.0, 25.0]), 'scattered_beam': _vecs(rng.normal(size=(n, 3)) + [0, 0.2, 4.0]),
+                                                 'wavelength': _arr(rng.uniform(1, 10, n) * 1e-10, 'm', dtype=dt), 'gravity': _vec(g_std, 'm/s^2')},
+                   lambda P, gname=gname, **kw: getattr(P.KB, gname)(**kw))
+    probe_ranges = {'us': (1e3, 1e4), 'm': (10.0, 20.0), 'rad': (0.1, 2.0), 'meV': (10.0, 20.0), 'angstrom': (1.0, 8.0), '1/angstrom': (1.0, 5.0)}
+    for kname, spec in kernels_1d.items():
+        probe_case(kname, lambda P, rng, n, dt, spec=spec: {
+            arg: _u(rng, *(np.array(probe_ranges[unit]) * (10.0 if arg == 'tof' and len(spec) == 4 else 1.0)), n, unit, dt) for arg, unit in spec},
+            lambda P, kname=kname, **kw: getattr(P.KT, kname)(**kw))
+    probe_case('Q_vec_from_Q_elements', lambda P, rng, n, dt: {q: _u(rng, -3, 3, n, '1/angstrom', 'float64') for q in ('Qx', 'Qy', 'Qz')},
+               lambda P, **kw: P.KT.Q_vec_from_Q_elements(**kw), dts=('float64',))
+    probe_case('Q_elements_from_wavelength', lambda P, rng, n, dt: {'wavelength': _u(rng, 1, 8, n, 'angstrom', dt), 'incident_beam': _vec([0.0, 0.0, 25.0]),
+                                                                  'scattered_beam': _vecs(rng.normal(size=(n, 3)) + [0, 0, 4.0])},
+               lambda P, **kw: P.KT.Q_elements_from_wavelength(**kw))
+    probe_case('propagate_times', lambda P, rng, n, dt: {'time': _u(rng, 0, 3e-3, n, 's', dt), 'wavelength': _u(rng, 1, 8, n, 'angstrom', dt), 'distance': sc.scalar(10.0, unit='m', dtype=dt)},
+               lambda P, time, wavelength, distance: P.CC.propagate_times(time, wavelength, distance))
+    probe_case('Material.attenuation_coefficient', lambda P, rng, n, dt: {'wavelength': _arr(rng.uniform(0.5, 5, n), 'angstrom', dim='wavelength', dtype=dt)},
+               lambda P, wavelength: P.Material(scattering_params=P.ScatteringParams.for_isotope('V'),
+                                                effective_sample_number_density=_s(0.07, '1/angstrom^3')).attenuation_coefficient(wavelength))
+    probe_case('Cylinder.beam_intersection', lambda P, rng, n, dt: {'start_point': _vecs(rng.uniform(-0.2, 0.2, size=(n, 3)), 'cm'), 'direction': _vecs(rng.normal(size=(n, 3)), 'one')},
+               lambda P, start_point, direction: cylinder2(P, lambda v: v).beam_intersection(start_point, direction), dts=('float64',))
+    probe_case('DiskChopper.time_offset_angle_at_beam', lambda P, rng, n, dt: {'angle': _u(rng, 0, 6, n, 'rad', dt)},
+               lambda P, angle: disk(P, lambda v: v, [10.0, 100.0], [60.0, 150.0]).time_offset_angle_at_beam(angle=angle))
+    # the same with operand VALUES for which a step inside the entry point is a no-op (unit-length vectors, a zero
+    # offset / distance / phase, factor one): the step that would otherwise make a new array may be skipped
+    def probe_case_noop(name, build_args, call):
+        @case(name, 'in-place:operands-that-make-an-internal-step-a-no-op')
+        def _(P, A, O, rng):
+            args = {k: A(v) for k, v in build_args(P, rng).items()}
+            return contents_probe(name, lambda **kw: call(P, **kw), args)
+
+    unit_rows = [[0.0, 0.0, 1.0], [0.0, 1.0, 0.0], [0.6, 0.0, 0.8]]
+    probe_case_noop('beam_aligned_unit_vectors', lambda P, rng: {'incident_beam': _vec([0.0, 0.0, 1.0]), 'gravity': _vec([0.0, -1.0, 0.0], 'm/s^2')},
+                    lambda P, **kw: P.KB.beam_aligned_unit_vectors(**kw))
+    probe_case_noop('two_theta', lambda P, rng: {'incident_beam': _vec([0.0, 0.0, 1.0]), 'scattered_beam': _vecs(unit_rows)},
+                    lambda P, **kw: P.KB.two_theta(**kw))
+    probe_case_noop('L2', lambda P, rng: {'scattered_beam': _vecs(unit_rows)}, lambda P, **kw: P.KB.L2(**kw))
+    probe_case_noop('straight_incident_beam', lambda P, rng: {'source_position': _vec([0.0, 0.0, 0.0]), 'sample_position': _vec([0.1, 0.2, 0.3])},
+                    lambda P, **kw: P.KB.straight_incident_beam(**kw))
+    probe_case_noop('straight_scattered_beam', lambda P, rng: {'position': _vecs(unit_rows), 'sample_position': _vec([0.0, 0.0, 0.0])},
+                    lambda P, **kw: P.KB.straight_scattered_beam(**kw))
+    probe_case_noop('total_beam_length', lambda P, rng: {'L1': _s(0.0, 'm'), 'L2': _arr([1.0, 2.0, 3.0], 'm')}, lambda P, **kw: P.KB.total_beam_length(**kw))
+    probe_case_noop('total_straight_beam_length_no_scatter', lambda P, rng: {'source_position': _vec([0.0, 0.0, 0.0]), 'position': _vecs(unit_rows)},
+                    lambda P, **kw: P.KB.total_straight_beam_length_no_scatter(**kw))
+    probe_case_noop('scattering_angles_with_gravity', lambda P, rng: {
+        'incident_beam': _vec([0.0, 0.0, 1.0]), 'scattered_beam': _vecs(unit_rows), 'wavelength': _arr([0.0, 0.0, 0.0], 'm'), 'gravity': _vec([0.0, -1.0, 0.0], 'm/s^2')},
+        lambda P, **kw: P.KB.scattering_angles_with_gravity(**kw))
+    probe_case_noop('Q_elements_from_wavelength', lambda P, rng: {'wavelength': _arr([1.0, 1.0, 1.0], 'angstrom'), 'incident_beam': _vec([0.0, 0.0, 1.0]),
+                                                                  'scattered_beam': _vecs(unit_rows)}, lambda P, **kw: P.KT.Q_elements_from_wavelength(**kw))
+    probe_case_noop('propagate_times', lambda P, rng: {'time': _arr([1e-3, 2e-3], 's'), 'wavelength': _arr([1.0, 2.0], 'angstrom'), 'distance': _s(0.0, 'm')},
+                    lambda P, time, wavelength, distance: P.CC.propagate_times(time, wavelength, distance))
+    probe_case_noop('DiskChopper.time_offset_angle_at_beam', lambda P, rng: {'angle': _arr([0.0, 1.0], 'rad')},
+                    lambda P, angle: disk(P, lambda v: v, [0.0, 2.0], [1.0, 3.0], unit='rad', phase=(0.0, 'rad'), f=1.0 / (2 * np.pi)).time_offset_angle_at_beam(angle=angle))
+    probe_case_noop('polynomial-model.__call__', lambda P, rng: {'x': _arr([1.0, 1.0, 1.0], 'angstrom'), 'p_a0': _s(0.0, 'angstrom'), 'p_a1': sc.scalar(1.0)},
+                    lambda P, x, **pr: P.peaks.model.PolynomialModel(degree=1, prefix='p_')(x, **pr))
+    probe_case_noop('energy_transfer_direct_from_tof', lambda P, rng: {'tof': _arr([2e4, 3e4], 'us'), 'L1': _s(10.0, 'm'), 'L2': _arr([0.0, 0.0], 'm'), 'incident_energy': _s(15.0, 'meV')},
+                    lambda P, **kw: P.KT.energy_transfer_direct_from_tof(**kw))
+
+    for mkind in ('gaussian', 'lorentzian', 'pseudo_voigt', 'polynomial'):
+        def margs(P, rng, n, dt, mkind=mkind):
+            _, pr = builtin_with_params(P, lambda v: v, mkind, 'p_', dt)
+            return {'x': _arr(np.linspace(1.0, 2.0, n), 'angstrom', dtype=dt), **pr}
+        probe_case(f'{mkind}-model.__call__', margs,
+                   lambda P, x, mkind=mkind, **pr: builtin_with_params(P, lambda v: v, mkind, 'p_', 'float64')[0](x, **pr))
+    for ckind in ('gaussian', 'polynomial'):
+        def cargs(P, rng, n, dt, ckind=ckind):
+            _, pr = builtin_with_params(P, lambda v: v, ckind, 'p_', dt)
+            _, pr2 = builtin_with_params(P, lambda v: v, 'polynomial', 'lin_', dt)
+            return {'x': _arr(np.linspace(1.0, 2.0, n), 'angstrom', dtype=dt), **pr, **pr2}
+        probe_case(f'composite-{ckind}+linear.__call__', cargs,
+                   lambda P, x, ckind=ckind, **pr: (builtin_with_params(P, lambda v: v, ckind, 'p_', 'float64')[0]
+                                                    + builtin_with_params(P, lambda v: v, 'polynomial', 'lin_', 'float64')[0])(x, **pr))
+
+    # ===================================================== the Monte-Carlo quadrature with the caller's random state pinned
+    # The 'mc' quadrature draws its points from numpy's process-wide random state, which belongs to the caller like any
+    # other input: a caller who puts it into the same state before each of two identical calls (np.random.seed, as the
+    # package's own test does) gets the same points, however many quadratures were drawn in between.  (Reading of
+    # "results do not depend on call history" with the global random state counted among the inputs; without pinning
+    # nothing is compared.)
+    @case('Cylinder.quadrature', 'mc:numpy-global-random-state-pinned-by-the-caller', layouts=('plain',))
+    def _(P, A, O, rng):
+        cyl, mat = O(cylinder2(P, A)), O(material2(P, A, O))
+        b, w = A(_vec([0.0, 0.1, 3.0], 'one')), A(sc.linspace('wavelength', 0.5, 5.0, 3, unit='angstrom'))
+        d = A(_vecs(rng.normal(size=(4, 3)) * 100, 'cm'))
+        calls = {"quadrature('mc')": lambda: cyl.quadrature('mc'), "quadrature(('mc', 9))": lambda: cyl.quadrature(('mc', 9)),
+                 "compute_transmission_map(quadrature_kind=('mc', 50))": lambda: P.compute_transmission_map(
+                     cyl, mat, beam_direction=b, wavelength=w, detector_position=d, quadrature_kind=('mc', 50))}
+
+        def f():
+            state = np.random.get_state()
+            try:
+                for label, call in calls.items():
+                    results = []
+                    for earlier in (0, 1, 3):
+                        for _ in range(earlier):
+                            cyl.quadrature(('mc', 5))
+                        np.random.seed(20240607)
+                        results.append(fp(call()))
+                    if len(set(results)) != 1:
+                        raise _Verdict('history_dependence', f'Cylinder {label}: with numpy\'s global random state put into the same state before each '
+                                       'call, the result depends on how many Monte-Carlo quadratures were drawn earlier in the process',
+                                       family='random-state', factory='Cylinder.quadrature(mc)', needs_mutation=False)
+            finally:
+                np.random.set_state(state)
+        return f
+
+    # ===================================================== (n) strings that are not in NFC / NFKC form
+    # The string arguments of the combinators and lookups this property is about: model prefixes (they decide which
+    # caller-owned parameter object reaches which component) and isotope names (the keys of the lookup caches).  A
+    # prefix is kept code point by code point, two prefixes that merely normalise to the same string are two prefixes,
+    # and a name that merely normalises to an isotope name is not that isotope -- neither now nor for later lookups.
+    odd_strings = {'decomposed-accent': 'e\u0301', 'angstrom-sign': '\u212b', 'kelvin-sign': '\u212a', 'ohm-sign': '\u2126',
+                   'micro-sign': '\u00b5', 'fullwidth': '\uff50\uff4b', 'ligature': '\ufb01', 'conjoining-jamo': '\u1100\u1161',
+                   'greek-question-mark': '\u037e'}
+
+    @case('model combinators / lookups', 'unicode:prefixes-and-isotope-names-not-in-normal-form', layouts=('plain',))
+    def _(P, A, O, rng):
+        import unicodedata
+
+        M = P.peaks.model
+        x = A(_arr([1.0, 1.5, 2.0], 'angstrom'))
+
+        def bad(what):
+            return _Verdict('string_not_preserved', what, function='model combinators / lookups')
+
+        def f():
+            for label, odd in odd_strings.items():
+                pre, norm = odd + '_', unicodedata.normalize('NFKC', odd) + '_'
+                assert norm != pre
+                g, gp = builtin_with_params(P, lambda v: v, 'gaussian', pre, 'float64')
+                g2, gp2 = builtin_with_params(P, lambda v: v, 'gaussian', norm, 'float64')
+                lin = M.PolynomialModel(degree=1, prefix='b_').with_prefix(pre + 'b_')
+                for m, names in ((g, set(gp)), (lin, {pre + 'b_a0', pre + 'b_a1'}), (g + g2, set(gp) | set(gp2)),
+                                 ((g + g2).with_prefix(''), set(gp) | set(gp2))):
+                    if sorted(map(list, m.param_names)) != sorted(map(list, names)):
+                        raise bad(f'{label}: parameter names {sorted(m.param_names)!r} instead of {sorted(names)!r}')
+                if list(g.prefix) != list(pre):
+                    raise bad(f'{label}: prefix {g.prefix!r} instead of {pre!r}')
+                alone, both = g(x, **gp), (g + g2)(x, **gp, **gp2)
+                if fp(both) != fp(alone + g2(x, **gp2)):
+                    raise bad(f'{label}: the sum of two models whose prefixes differ only by normalisation is not the sum of the two')
+                try:
+                    g(x, **gp2)   # the names of the OTHER model
+                except Exception:  # noqa: BLE001
+                    pass
+                else:
+                    raise bad(f'{label}: a model with prefix {pre!r} accepted parameters named with the prefix {norm!r}')
+            for name in ('K', 'H', 'Si', 'V'):
+                ref = fp((P.Atom.for_isotope(name), P.ScatteringParams.for_isotope(name)))
+                for variant in sorted({name.replace('K', '\u212a'), ''.join(chr(ord(c) + 0xfee0) for c in name), name[0] + '\u0301' + name[1:]} - {name}):
+                    for lookup in (P.Atom.for_isotope, P.ScatteringParams.for_isotope):
+                        try:
+                            got = lookup(variant)
+                        except Exception:  # noqa: BLE001  (refused: fine)
+                            continue
+                        if list(got.isotope) != list(variant):
+                            raise bad(f'lookup of {variant!r} ({[hex(ord(c)) for c in variant]}) returned the entry {got.isotope!r}')
+                    if fp((P.Atom.for_isotope(name), P.ScatteringParams.for_isotope(name))) != ref:
+                        raise _Verdict('history_dependence', f'lookup of {name!r} differs after a lookup of {variant!r}', family='atoms', factory='for_isotope', needs_mutation=False)
+        return f
+
     # ===================================================== (j) display / copy / pickle / == between two computational calls
     def displayed(make, compute, label):
         """build(): the object is computed with, then shown / copied / pickled / compared, then computed with again:
@@ -3350,6 +4006,138 @@ def pytest_shard(ctx, shard):
         shutil.rmtree(out, ignore_errors=True)
 
 
+# ============================================================ (o) fresh interpreter ===
+# The empty history: the first call in a new interpreter that has imported ONLY the module of the entry point (plus
+# scipp / numpy to build the operands) must give, bit for bit, what the same call gives in this worker process, which
+# has every module loaded and thousands of calls behind it.
+_FRESH_SER = r"""
+import dataclasses, json, sys
+import numpy as np
+import scipp as sc
+def ser(o, depth=0):
+    if isinstance(o, sc.Variable):
+        var = None if o.variances is None else np.ascontiguousarray(o.variances).tobytes().hex()
+        return ['V', list(o.dims), list(o.shape), str(o.unit), str(o.dtype), np.ascontiguousarray(o.values).tobytes().hex(), var]
+    if isinstance(o, sc.DataArray):
+        return ['DA', ser(o.data), {k: ser(v) for k, v in o.coords.items()}, {k: ser(v) for k, v in o.masks.items()}]
+    if isinstance(o, dict):
+        return ['D', sorted([[str(k), ser(v, depth + 1)] for k, v in o.items()])]
+    if isinstance(o, (list, tuple)):
+        return ['L', [ser(v, depth + 1) for v in o]]
+    if isinstance(o, (set, frozenset)):
+        return ['S', sorted(map(str, o))]
+    if isinstance(o, float):
+        return ['f', o.hex()]
+    if o is None or isinstance(o, (bool, int, str)):
+        return ['p', repr(o)]
+    if callable(o):
+        return ['F', getattr(o, '__qualname__', type(o).__name__)]
+    if dataclasses.is_dataclass(o) and depth < 4:
+        return ['DC', type(o).__name__, [[f.name, ser(getattr(o, f.name, None), depth + 1)] for f in dataclasses.fields(o)]]
+    if isinstance(o, np.generic):
+        return ['NG', str(o.dtype), o.tobytes().hex()]
+    d = getattr(o, '__dict__', None)
+    if d and depth < 4:
+        return ['O', type(o).__name__, sorted([[k, ser(v, depth + 1)] for k, v in d.items()])]
+    return ['R', type(o).__name__]
+def v(values, unit, dim='x', dtype='float64'):
+    return sc.array(dims=[dim], values=values, unit=unit, dtype=dtype)
+def s(value, unit):
+    return sc.scalar(float(value), unit=unit)
+def vec(xyz, unit='m'):
+    return sc.vector(xyz, unit=unit)
+def vecs(rows, unit='m'):
+    return sc.vectors(dims=['x'], values=rows, unit=unit)
+def spectrum():
+    x = np.linspace(0.0, 10.0, 120)
+    y = 5 * np.exp(-((x - 4.0) / 0.3) ** 2) + 1.0 + 0.05 * np.sin(37.0 * x)
+    da = sc.DataArray(sc.array(dims=['x'], values=y, variances=np.full(120, 0.05 ** 2)), coords={'x': sc.array(dims=['x'], values=x, unit='angstrom')})
+    return da
+"""
+FRESH_CALLS = [  # (label, the module of the entry point, the call)
+    ('atoms.for_isotope', 'scippneutron.atoms',
+     "[m.Atom.for_isotope('V'), m.ScatteringParams.for_isotope('H'), m.Atom.for_isotope('Si').atomic_weight, m.reference_wavelength()]"),
+    ('conversion.graph.tof.elastic', 'scippneutron.conversion.graph.tof',
+     "[m.elastic('tof'), m.elastic_wavelength('tof'), m.elastic_dspacing('wavelength'), m.direct_inelastic('tof')]"),
+    ('conversion.graph.beamline.beamline', 'scippneutron.conversion.graph.beamline', "[m.beamline(scatter=True), m.beamline(scatter=False)]"),
+    ('conversion.tof kernels', 'scippneutron.conversion.tof',
+     "[m.wavelength_from_tof(tof=v([1e3, 2e3], 'us'), Ltotal=s(10, 'm')), m.energy_from_tof(tof=v([1e3, 2e3], 'us'), Ltotal=s(10, 'm')), "
+     "m.dspacing_from_energy(energy=v([10.0, 20.0], 'meV'), two_theta=s(1.0, 'rad')), "
+     "m.energy_transfer_direct_from_tof(tof=v([2e4, 3e4], 'us'), L1=s(10, 'm'), L2=s(2, 'm'), incident_energy=s(15, 'meV')), "
+     "m.Q_from_wavelength(wavelength=v([1.0, 2.0], 'angstrom', dtype='float32'), two_theta=s(1.0, 'rad'))]"),
+    ('conversion.beamline kernels', 'scippneutron.conversion.beamline',
+     "[m.two_theta(incident_beam=vec([0, 0, 25.0]), scattered_beam=vecs([[0.1, 0.2, 4.0], [1.0, -0.5, 3.0]])), "
+     "m.scattering_angles_with_gravity(incident_beam=vec([0, 0, 25.0]), scattered_beam=vecs([[0.1, 0.2, 4.0], [1.0, -0.5, 3.0]]), "
+     "wavelength=v([1.0, 6.0], 'angstrom'), gravity=vec([0, -9.80665, 0], 'm/s^2')), m.beam_aligned_unit_vectors(incident_beam=vec([0.2, 0, 25.0]), gravity=vec([0, -9.80665, 0], 'm/s^2'))]"),
+    ('peaks.model', 'scippneutron.peaks.model',
+     "[(m.PolynomialModel(degree=1, prefix='b_') + m.GaussianModel(prefix='p_'))(v([1.0, 1.5, 2.0], 'angstrom'), b_a0=s(1, 'one'), b_a1=s(0.5, '1/angstrom'), "
+     "p_amplitude=s(10, 'angstrom'), p_loc=s(1.5, 'angstrom'), p_scale=s(0.2, 'angstrom')), m.PseudoVoigtModel(prefix='').guess(spectrum()), m.LorentzianModel().param_bounds]"),
+    ('peaks.fit_peaks', 'scippneutron.peaks',
+     "[(r.popt, r.red_chisq, r.aic, r.message) for r in m.fit_peaks(spectrum(), peak_estimates=v([4.0], 'angstrom'), windows=s(2.0, 'angstrom'), background='linear', peak='gaussian')]"),
+    ('absorption', 'scippneutron.absorption',
+     "[(c := m.Cylinder(symmetry_line=vec([0, 1.0, 0], 'one'), center_of_base=vec([0, -0.5, 0], 'cm'), radius=s(0.5, 'cm'), height=s(1, 'cm'))).quadrature('cheap'), "
+     "c.beam_intersection(vecs([[0.1, 0.0, 0.0]], 'cm'), vecs([[0.0, 0.0, 1.0]], 'one')), c.volume]"),
+    ('chopper.DiskChopper', 'scippneutron.chopper.disk_chopper',
+     "[(d := m.DiskChopper(axle_position=vec([0, 0, 8.0]), frequency=s(14, 'Hz'), beam_position=s(0, 'rad'), phase=s(0.5, 'rad'), "
+     "slit_begin=v([0.0, 2.0], 'rad', 'slit'), slit_end=v([1.0, 3.0], 'rad', 'slit'))).time_offset_open(pulse_frequency=s(14, 'Hz')), d.open_duration(pulse_frequency=s(14, 'Hz'))]"),
+    ('tof.chopper_cascade', 'scippneutron.tof.chopper_cascade',
+     "[m.propagate_times(v([0.0, 1e-3], 's'), v([1.0, 5.0], 'angstrom'), s(10, 'm')), "
+     "m.FrameSequence.from_source_pulse(time_min=s(0, 's'), time_max=s(3e-3, 's'), wavelength_min=s(1, 'angstrom'), wavelength_max=s(8, 'angstrom'))"
+     ".chop([m.Chopper(distance=s(8, 'm'), time_open=v([5e-3], 's', 'cutout'), time_close=v([9e-3], 's', 'cutout'))])[s(12, 'm')].bounds()]"),
+]
+
+
+def fresh_shard(ctx, shard):
+    env = dict(os.environ)
+    procs = []
+    control = subprocess.Popen([sys.executable, '-c', _FRESH_SER + "\nprint(json.dumps(ser([v([1.0], 'm'), {'a': 1.5}])))"],
+                               stdout=subprocess.PIPE, stderr=subprocess.PIPE, text=True, env=env)
+    for label, module, expr in FRESH_CALLS:
+        script = f'import {module} as m\n' + _FRESH_SER + f'\nprint(json.dumps(ser({expr})))\n'
+        procs.append(subprocess.Popen([sys.executable, '-c', script], stdout=subprocess.PIPE, stderr=subprocess.PIPE, text=True, env=env))
+    ns = {}
+    exec(_FRESH_SER, ns)  # noqa: S102  (the serialiser and the operand builders: the same text here and there)
+    out, err = control.communicate(timeout=300)
+    if control.returncode != 0 or json.loads(out) != json.loads(json.dumps(ns['ser']([ns['v']([1.0], 'm'), {'a': 1.5}]))):
+        ctx.inconclusive_because('fresh-interpreter probe: the control subprocess (scipp and numpy only) failed: ' + err[-300:])
+        for p in procs:
+            p.kill()
+        return
+    for (label, module, expr), proc in zip(FRESH_CALLS, procs, strict=True):
+        out, err = proc.communicate(timeout=600)
+        m = importlib.import_module(module)
+        here = []
+        for _ in range(3):  # (in the worker: three times; the last two, which have a history behind them, are judged)
+            try:
+                here.append(json.loads(json.dumps(ns['ser'](eval(expr, dict(ns, m=m))))))  # noqa: S307
+            except Exception as e:  # noqa: BLE001
+                here.append(['raised', type(e).__name__])
+        if proc.returncode == 0:
+            try:
+                there = json.loads(out.strip().splitlines()[-1])
+            except Exception:  # noqa: BLE001
+                ctx.oracle_error('fresh_shard: output of ' + label)
+                continue
+        else:
+            last = (err.strip().splitlines() or ['?'])[-1]
+            there = ['raised', last.split(':')[0].split('.')[-1]]
+        if here[0][0] == 'raised':
+            ctx.count(f'fresh-interpreter call raises in the worker: {label}: {here[0][1]}')
+        ctx.event('fresh_interpreter_call')
+        ctx.hit('fresh-interpreter:' + label)
+        ctx.case(('fresh', label))
+        here = here[1:]
+        if here[0] != here[1]:
+            ctx.violation('history_dependence', f'{label}: two identical calls in the worker process give different results',
+                          {'label': label, 'call': expr, 'workload': 'fresh'}, family='fresh-interpreter', factory=label, needs_mutation=False)
+        elif there != here[0]:
+            ctx.violation('history_dependence',
+                          f'{label}: the first call in a fresh interpreter that imported only {module} gives a result different from the same call in the worker process'
+                          + (f' (the fresh interpreter raised: {err.strip().splitlines()[-1][:200]})' if proc.returncode != 0 and err.strip() else ''),
+                          {'label': label, 'call': expr, 'workload': 'fresh', 'fresh': str(there)[:300], 'worker': str(here[0])[:300]},
+                          family='fresh-interpreter', factory=label, needs_mutation=False)
+
+
 # ================================================================ driver ===
 def plan(tier, seed):
     shards = [{'kind': 'alias', 'reps': 1 if tier == 'quick' else 4}]  # (index 0: also run as the environment variants)
@@ -3357,6 +4145,7 @@ def plan(tier, seed):
     order = sorted(REUSE, key=lambda m: m not in ('c17', 'c02', 'c13'))
     shards.append({'kind': 'reuse', 'module': order[0], 'n_sub': 1 if tier == 'quick' else 3})
     shards.append({'kind': 'heavy', 'reps': 1})
+    shards.append({'kind': 'fresh'})
     for part in range(VALUE_PARTS):
         shards.append({'kind': 'values', 'reps': 1 if tier == 'quick' else 3, 'part': part, 'nparts': VALUE_PARTS})
     for m in order[1:]:
@@ -3378,9 +4167,10 @@ def plan(tier, seed):
 def requirements(tier):
     return {'events': {'mutation_monitor.judged_calls': 5000, 'alias_case': 100, 'history_sequence': 1000,
                        'history_sequence_with_mutation': 200, 'noncanon_case': N_NONCANON_RUNS,
-                       'second_use_case': len(_ALL_CASES) - 2, 'fingerprint_probe': 20, 'history_sequence_with_display': 200},
+                       'second_use_case': len(_ALL_CASES) - 2, 'fingerprint_probe': 20, 'history_sequence_with_display': 200,
+                       'fresh_interpreter_call': len(FRESH_CALLS)},
             'forced': [*NONCANON, *('noncanon-layout:' + x for x in LAYOUTS), 'second-use:after-a-call-that-raised',
-                       'second-use:after-a-call-that-returned']}
+                       'second-use:after-a-call-that-returned', *('fresh-interpreter:' + c[0] for c in FRESH_CALLS)]}
 
 
 def run(shard, ctx):
@@ -3397,6 +4187,8 @@ def run(shard, ctx):
         history(ctx, shard)
     elif shard['kind'] == 'pytest':
         pytest_shard(ctx, shard)
+    elif shard['kind'] == 'fresh':
+        fresh_shard(ctx, shard)
     ctx.extra['shard_wall:' + shard['kind'] + ':' + str(shard.get('module') or shard.get('family') or shard.get('paths') or '') + ':' + str(shard.get('first', ''))] = round(time.time() - t0, 1)
 
 
